@@ -168,6 +168,9 @@ def _vf_bin(op: str, l: Any, r: Any) -> Any:
 			return l * r
 		raise OutOfSubset(f'str operator {op}')
 	if tl is list or tr is list:
+		# the list fill `[v] * n` (proc_binary_operation_fill_list: `std::vector<T>(n, v)`), a non-negative bounded count
+		if op == 'Mult' and tl is list and len(l) == 1 and tr is int and 0 <= r <= 64:
+			return l * r
 		raise OutOfSubset(f'list operator {op}')
 	if tl not in (int, float) or tr not in (int, float):
 		raise OutOfSubset(f'operator {op} on {tl.__name__}/{tr.__name__}')
